@@ -289,6 +289,18 @@ let operator_query (toks : string list) (rhs : string) : string =
         q_A_give_row nr nth op_h op_k r0 (op_node op_arr) (op_node op_att) (op_node op_art) (op_node op_det) op_b !op_dirbc (zs i) (zs j)
       | _ -> failwith "unknown operator") in
     check_row rhs (merge_row2 row) 1e-11
+  | "RHSW" :: "|" :: ws ->
+    let nr = z_of_int !op_nr and nth = z_of_int !op_nth in
+    let r0 = tq !op_rad.(0) in
+    let bad = ref None in
+    List.iteri (fun k s ->
+        let i = k / !op_nth and j = k mod !op_nth in
+        let m = float_of_q (qt (q_rhs_weight nr nth op_h op_k r0 (op_node op_det) !op_dirbc (z_of_int i) (z_of_int j))) in
+        let v = fl s in
+        if !bad = None && Float.abs (v -. m) > 1e-12 *. Float.max (Float.abs m) 1e-300 then bad := Some (i, j, m)) ws;
+    (match !bad with
+     | None -> "CHECK ok"
+     | Some (i, j, m) -> Printf.sprintf "CHECK FAIL rhs weight at node (%d,%d): model %h" i j m)
   | "PROP" :: _ -> "ok"
   | _ -> "?unknown-query"
 
